@@ -17,6 +17,7 @@ package main
 
 import (
 	"fmt"
+	"go/constant"
 	"go/token"
 	"go/types"
 	"strings"
@@ -84,7 +85,10 @@ type pathCtx struct {
 	depth  int
 }
 
-func (p *pathCtx) has(b *ssa.BasicBlock) bool { _, ok := p.pred[b]; return ok || (len(p.blocks) > 0 && p.blocks[0] == b) }
+func (p *pathCtx) has(b *ssa.BasicBlock) bool {
+	_, ok := p.pred[b]
+	return ok || (len(p.blocks) > 0 && p.blocks[0] == b)
+}
 
 // enumPaths enumerates acyclic paths from entry that reach target (an
 // instruction) — or, when target is nil, that reach a normal return — with
@@ -107,15 +111,20 @@ func enumPathsFrom(f *ssa.Function, start *ssa.BasicBlock, target ssa.Instructio
 func enumPathsGen(f *ssa.Function, start *ssa.BasicBlock, target ssa.Instruction, endBlock *ssa.BasicBlock, limit int) ([]*pathCtx, bool) {
 	var out []*pathCtx
 	complete := true
-	var walk func(b *ssa.BasicBlock, blocks []*ssa.BasicBlock, pred map[*ssa.BasicBlock]*ssa.BasicBlock, conds map[string]bool, decs []decision)
-	walk = func(b *ssa.BasicBlock, blocks []*ssa.BasicBlock, pred map[*ssa.BasicBlock]*ssa.BasicBlock, conds map[string]bool, decs []decision) {
+	var walk func(b *ssa.BasicBlock, blocks []*ssa.BasicBlock, pred map[*ssa.BasicBlock]*ssa.BasicBlock, conds map[string]bool, decs []decision, nonnil0 map[string]bool)
+	walk = func(b *ssa.BasicBlock, blocks []*ssa.BasicBlock, pred map[*ssa.BasicBlock]*ssa.BasicBlock, conds map[string]bool, decs []decision, nonnil0 map[string]bool) {
 		if len(out) >= limit {
 			complete = false
 			return
 		}
 		blocks = append(blocks, b)
+		nonnil := map[string]bool{}
+		for k := range nonnil0 {
+			nonnil[k] = true
+		}
 		done := false
 		for _, in := range b.Instrs {
+			noteDeref(in, pred, nonnil)
 			if target != nil && in == target {
 				done = true
 				break
@@ -158,11 +167,19 @@ func enumPathsGen(f *ssa.Function, start *ssa.BasicBlock, target ssa.Instruction
 			nd := decs
 			if iff != nil {
 				c, pos := stripNot(iff.Cond)
+				if rc := resolveAlong(c, pred); rc != c {
+					// a condition merged through a phi (a || b, inlined boolean helper): decide on what it is on this path
+					c2, pos2 := stripNot(rc)
+					c, pos = c2, pos == pos2
+				}
 				key, flip := condKey(c, pred)
 				truth := (si == 0) == pos // truth of c itself
-				keyTruth := truth != flip  // truth of the normalised condition
+				keyTruth := truth != flip // truth of the normalised condition
 				if old, ok := conds[key]; ok && old != keyTruth {
 					continue // inconsistent with an earlier decision on the same condition
+				}
+				if val, known := foldCond(c, pred, nonnil); known && val != truth {
+					continue // the condition has a known value on this path
 				}
 				nc = map[string]bool{}
 				for k, v := range conds {
@@ -176,10 +193,10 @@ func enumPathsGen(f *ssa.Function, start *ssa.BasicBlock, target ssa.Instruction
 				np[k] = v
 			}
 			np[s] = b
-			walk(s, blocks, np, nc, nd)
+			walk(s, blocks, np, nc, nd, nonnil)
 		}
 	}
-	walk(start, nil, map[*ssa.BasicBlock]*ssa.BasicBlock{}, map[string]bool{}, nil)
+	walk(start, nil, map[*ssa.BasicBlock]*ssa.BasicBlock{}, map[string]bool{}, nil, nil)
 	return out, complete
 }
 
@@ -255,7 +272,7 @@ func (e *seqEngine) eval(v ssa.Value, p *pathCtx) seqVal {
 		return seqVal{Unknown: "phi edge not found"}
 	case *ssa.UnOp:
 		if x.Op == token.MUL {
-			switch a := x.X.(type) {
+			switch a := resolveAlong(x.X, p.pred).(type) {
 			case *ssa.FieldAddr:
 				fv := fieldVar(a.X.Type(), a.Field)
 				at := atom{Kind: 'F', Field: fv, Base: canon(a.X), Val: x}
@@ -391,12 +408,12 @@ func (e *seqEngine) evalArrayLit(al *ssa.Alloc, p *pathCtx) seqVal {
 		if ev == nil {
 			return seqVal{Unknown: "array literal element not initialised"}
 		}
-		out.Atoms = append(out.Atoms, elemAtom(ev))
+		out.Atoms = append(out.Atoms, elemAtom(ev, p.pred))
 	}
 	return out
 }
 
-func elemAtom(ev ssa.Value) atom {
+func elemAtom(ev ssa.Value, pred map[*ssa.BasicBlock]*ssa.BasicBlock) atom {
 	for {
 		if ct, ok := ev.(*ssa.ChangeType); ok {
 			ev = ct.X
@@ -406,10 +423,10 @@ func elemAtom(ev ssa.Value) atom {
 	}
 	if ld, ok := ev.(*ssa.UnOp); ok && ld.Op == token.MUL {
 		if fa, ok := ld.X.(*ssa.FieldAddr); ok {
-			return atom{Kind: 'E', Field: fieldVar(fa.X.Type(), fa.Field), Base: canon(fa.X), Name: canon(ev), Val: ev}
+			return atom{Kind: 'E', Field: fieldVar(fa.X.Type(), fa.Field), Base: canonAlong(fa.X, pred), Name: canonAlong(ev, pred), Val: ev}
 		}
 	}
-	return atom{Kind: 'E', Name: canon(ev), Val: ev}
+	return atom{Kind: 'E', Name: canonAlong(ev, pred), Val: ev}
 }
 
 // evalMake: make(T, n) followed by copy(dst, a); copy(dst[len(a):], b)...
@@ -582,31 +599,113 @@ func distinctSeqs(alts []seqAlt) []string {
 // complementary comparisons share one key (x != y is the negation of x == y,
 // x >= y of x < y, x > y of x <= y). flip reports that the key denotes the
 // negation of cond.
-func condKey(c ssa.Value, pred map[*ssa.BasicBlock]*ssa.BasicBlock) (key string, flip bool) {
-	res := func(v ssa.Value) ssa.Value {
-		for i := 0; i < 8; i++ {
-			ph, ok := v.(*ssa.Phi)
-			if !ok {
-				return v
-			}
-			pr, has := pred[ph.Block()]
-			if !has {
-				return v
-			}
-			found := false
-			for j, pb := range ph.Block().Preds {
-				if pb == pr {
-					v = ph.Edges[j]
-					found = true
-					break
-				}
-			}
-			if !found {
-				return v
+// resolveAlong follows phis through the predecessor taken on the path.
+func resolveAlong(v ssa.Value, pred map[*ssa.BasicBlock]*ssa.BasicBlock) ssa.Value {
+	for i := 0; i < 8; i++ {
+		ph, ok := v.(*ssa.Phi)
+		if !ok {
+			return v
+		}
+		pr, has := pred[ph.Block()]
+		if !has {
+			return v
+		}
+		found := false
+		for j, pb := range ph.Block().Preds {
+			if pb == pr {
+				v = ph.Edges[j]
+				found = true
+				break
 			}
 		}
-		return v
+		if !found {
+			return v
+		}
 	}
+	return v
+}
+
+// definitelyNonNil: the value cannot be nil (by construction, or because the
+// path already dereferenced a value with the same canonical form).
+func definitelyNonNil(v ssa.Value, nonnil map[string]bool) bool {
+	switch v.(type) {
+	case *ssa.Alloc, *ssa.MakeInterface, *ssa.MakeMap, *ssa.MakeChan, *ssa.MakeClosure, *ssa.MakeSlice, *ssa.Function, *ssa.Global, *ssa.FieldAddr, *ssa.IndexAddr:
+		return true
+	}
+	return nonnil != nil && nonnil[canon(v)]
+}
+
+// foldCond evaluates a (negation-stripped) branch condition on the path when its
+// operands resolve to constants, or to nil versus a value known to be non-nil.
+func foldCond(c ssa.Value, pred map[*ssa.BasicBlock]*ssa.BasicBlock, nonnil map[string]bool) (val, known bool) {
+	v := resolveAlong(c, pred)
+	if k, ok := v.(*ssa.Const); ok && k.Value != nil && k.Value.Kind() == constant.Bool {
+		return constant.BoolVal(k.Value), true
+	}
+	b, ok := v.(*ssa.BinOp)
+	if !ok || (b.Op != token.EQL && b.Op != token.NEQ) {
+		return false, false
+	}
+	x, y := resolveAlong(b.X, pred), resolveAlong(b.Y, pred)
+	eq, kn := false, false
+	kx, xc := x.(*ssa.Const)
+	ky, yc := y.(*ssa.Const)
+	switch {
+	case xc && yc:
+		if kx.Value == nil || ky.Value == nil {
+			eq, kn = kx.Value == nil && ky.Value == nil, true
+		} else if kx.Value.Kind() == ky.Value.Kind() {
+			eq, kn = constant.Compare(kx.Value, token.EQL, ky.Value), true
+		}
+	case xc && kx.Value == nil && isNilable(y.Type()):
+		if definitelyNonNil(y, nonnil) {
+			eq, kn = false, true
+		}
+	case yc && ky.Value == nil && isNilable(x.Type()):
+		if definitelyNonNil(x, nonnil) {
+			eq, kn = false, true
+		}
+	}
+	if !kn {
+		return false, false
+	}
+	return eq == (b.Op == token.EQL), true
+}
+
+func isNilable(t types.Type) bool {
+	switch t.Underlying().(type) {
+	case *types.Pointer, *types.Interface, *types.Map, *types.Slice, *types.Chan, *types.Signature:
+		return true
+	}
+	return false
+}
+
+// noteDeref records the pointers an instruction dereferences (they are non-nil afterwards).
+func noteDeref(in ssa.Instruction, pred map[*ssa.BasicBlock]*ssa.BasicBlock, nonnil map[string]bool) {
+	var base ssa.Value
+	switch x := in.(type) {
+	case *ssa.FieldAddr:
+		base = x.X
+	case *ssa.UnOp:
+		if x.Op == token.MUL {
+			base = x.X
+		}
+	case *ssa.Store:
+		base = x.Addr
+	}
+	if base == nil {
+		return
+	}
+	base = resolveAlong(base, pred)
+	switch base.(type) {
+	case *ssa.Alloc, *ssa.FieldAddr, *ssa.IndexAddr, *ssa.Global:
+		return
+	}
+	nonnil[canon(base)] = true
+}
+
+func condKey(c ssa.Value, pred map[*ssa.BasicBlock]*ssa.BasicBlock) (key string, flip bool) {
+	res := func(v ssa.Value) ssa.Value { return resolveAlong(v, pred) }
 	if b, ok := c.(*ssa.BinOp); ok {
 		x, y := canon(res(b.X)), canon(res(b.Y))
 		switch b.Op {
@@ -634,4 +733,122 @@ func condKey(c ssa.Value, pred map[*ssa.BasicBlock]*ssa.BasicBlock) (key string,
 		return canon(res(ph)), false
 	}
 	return canon(c), false
+}
+
+// fwdPath is one path from an instruction to the end of the function.
+type fwdPath struct {
+	pc     *pathCtx
+	instrs []ssa.Instruction // executed after the start instruction, in order
+	ret    *ssa.Return       // nil: the path ends in a panic
+}
+
+type condFact struct {
+	cond  ssa.Value
+	truth bool
+}
+
+// exploreFrom enumerates the paths that start just after instruction from and
+// run to a return (or panic). Each CFG edge is taken at most once per path (a
+// loop may be re-entered once). The facts that dominate the start (branch
+// decisions and dereferences) and the extra facts seed the path condition;
+// branches whose condition folds on the path are pruned.
+func exploreFrom(from ssa.Instruction, extra []condFact, limit int) ([]*fwdPath, bool) {
+	f := from.Parent()
+	var out []*fwdPath
+	complete := true
+	conds0 := map[string]bool{}
+	var decs0 []decision
+	nopred := map[*ssa.BasicBlock]*ssa.BasicBlock{}
+	addFact := func(c ssa.Value, truth bool, iff *ssa.If) {
+		c0, pos := stripNot(c)
+		t := truth == pos
+		key, flip := condKey(c0, nopred)
+		conds0[key] = t != flip
+		decs0 = append(decs0, decision{iff, t, c0})
+	}
+	for _, ft := range factsAt(from) {
+		addFact(ft.Cond, ft.True, ft.If)
+	}
+	for _, e := range extra {
+		addFact(e.cond, e.truth, nil)
+	}
+	nonnil0 := map[string]bool{}
+	eachInstr(f, func(d ssa.Instruction) {
+		if d != from && dominates(d, from) {
+			noteDeref(d, nopred, nonnil0)
+		}
+	})
+	type edge struct{ from, to *ssa.BasicBlock }
+	steps := 0
+	var walk func(b *ssa.BasicBlock, start int, pred map[*ssa.BasicBlock]*ssa.BasicBlock, conds map[string]bool, decs []decision, nonnil0 map[string]bool, used map[edge]bool, instrs []ssa.Instruction)
+	walk = func(b *ssa.BasicBlock, start int, pred map[*ssa.BasicBlock]*ssa.BasicBlock, conds map[string]bool, decs []decision, nonnil0 map[string]bool, used map[edge]bool, instrs []ssa.Instruction) {
+		steps++
+		if len(out) >= limit || steps > 200*limit {
+			complete = false
+			return
+		}
+		nonnil := map[string]bool{}
+		for k := range nonnil0 {
+			nonnil[k] = true
+		}
+		for j := start; j < len(b.Instrs); j++ {
+			in := b.Instrs[j]
+			noteDeref(in, pred, nonnil)
+			instrs = append(instrs, in)
+			if ret, ok := in.(*ssa.Return); ok {
+				out = append(out, &fwdPath{pc: &pathCtx{fn: f, pred: pred, conds: conds, decs: decs}, instrs: append([]ssa.Instruction(nil), instrs...), ret: ret})
+				return
+			}
+			if panicsAt(in) {
+				out = append(out, &fwdPath{pc: &pathCtx{fn: f, pred: pred, conds: conds, decs: decs}, instrs: append([]ssa.Instruction(nil), instrs...)})
+				return
+			}
+		}
+		var iff *ssa.If
+		if len(b.Instrs) > 0 {
+			iff, _ = b.Instrs[len(b.Instrs)-1].(*ssa.If)
+		}
+		for si, s := range b.Succs {
+			if used[edge{b, s}] {
+				continue
+			}
+			nc, nd := conds, decs
+			if iff != nil {
+				c, pos := stripNot(iff.Cond)
+				if rc := resolveAlong(c, pred); rc != c {
+					// a condition merged through a phi (a || b, inlined boolean helper): decide on what it is on this path
+					c2, pos2 := stripNot(rc)
+					c, pos = c2, pos == pos2
+				}
+				key, flip := condKey(c, pred)
+				truth := (si == 0) == pos
+				keyTruth := truth != flip
+				if old, ok := conds[key]; ok && old != keyTruth {
+					continue
+				}
+				if val, known := foldCond(c, pred, nonnil); known && val != truth {
+					continue
+				}
+				nc = map[string]bool{}
+				for k, v := range conds {
+					nc[k] = v
+				}
+				nc[key] = keyTruth
+				nd = append(append([]decision(nil), decs...), decision{iff, truth, c})
+			}
+			np := map[*ssa.BasicBlock]*ssa.BasicBlock{}
+			for k, v := range pred {
+				np[k] = v
+			}
+			np[s] = b
+			nu := map[edge]bool{}
+			for k := range used {
+				nu[k] = true
+			}
+			nu[edge{b, s}] = true
+			walk(s, 0, np, nc, nd, nonnil, nu, append([]ssa.Instruction(nil), instrs...))
+		}
+	}
+	walk(from.Block(), idxIn(from)+1, map[*ssa.BasicBlock]*ssa.BasicBlock{}, conds0, decs0, nonnil0, map[edge]bool{}, nil)
+	return out, complete
 }
